@@ -37,6 +37,7 @@ type transInst struct {
 	results []int64
 	closerOpened int
 	unarmedAllow bool
+	rawOpen      *verifsched.Bool
 }
 
 type scriptedOpener struct{}
@@ -67,7 +68,10 @@ func (c scriptedCloser) Opened(context.Context, time.Time) {
 }
 func (scriptedCloser) ShouldClose(context.Context, time.Time) bool   { return true }
 func (c scriptedCloser) Allow(context.Context, time.Time) bool {
-	if c.g.closerOpened == 0 {
+	// asked while the circuit's own open flag is set although no opening has been announced to this closer yet.
+	// (A caller that saw a ForceOpen override which was cleared a moment later also ends up here, with the flag
+	// clear: the circuit is closed, admitting the call is right, and that is no finding.)
+	if c.g.closerOpened == 0 && c.g.rawOpen != nil && c.g.rawOpen.Peek() {
 		c.g.unarmedAllow = true
 	}
 	return true
@@ -118,6 +122,7 @@ func (g *transInst) Build(s *verifsched.Sched) []func() {
 	s.Name(fieldAddr(v, "threadSafeConfig", "CircuitBreaker", "ForceOpen"), "Lfo")
 	s.Name(fieldAddr(v, "threadSafeConfig", "CircuitBreaker", "ForcedClosed"), "Lfc")
 	s.Name(fieldAddr(v, "isOpen"), "Lopen")
+	g.rawOpen = (*verifsched.Bool)(fieldAddr(v, "isOpen"))
 	s.Name(fieldAddr(v, "transitionMu"), "Mtm")
 	g.results = make([]int64, len(g.p.Threads))
 	errFail := errors.New("fail")
